@@ -704,7 +704,12 @@ async fn sim_main(sh: Rc<Shared>) -> Option<Violation> {
     let dir = root
         .join("sim/target/uds")
         .join(format!("{}", std::process::id()));
-    let _ = std::fs::create_dir_all(&dir);
+    thread_local! {
+        static DIR_MADE: std::cell::Cell<bool> = const { std::cell::Cell::new(false) };
+    }
+    if !DIR_MADE.with(|d| d.replace(true)) {
+        let _ = std::fs::create_dir_all(&dir);
+    }
     sh.factory_pending_polls.set(0);
 
     // listeners are created by the simulator and handed to the real builder
@@ -817,11 +822,15 @@ async fn sim_main(sh: Rc<Shared>) -> Option<Violation> {
         c.gate = None;
     }
     let v = sh.violation.borrow_mut().take();
-    let dir = sim.dir.clone();
+    // client socket files of this run (listener paths are unlinked by the server); the directory
+    // itself is per process and stays (creating and removing it for every run is far too slow)
+    if cfg.listeners.contains(&Lst::Uds) {
+        for c in 0..sh.conns.borrow().len() {
+            let _ = std::fs::remove_file(sim.dir.join(format!("c{c}.sock")));
+        }
+    }
     drop(_enter);
     drop(sim);
-    // socket files of this run (listener paths are unlinked by the server, client paths are not)
-    let _ = std::fs::remove_dir_all(&dir);
     v
 }
 
